@@ -38,6 +38,24 @@ type scalarScenario struct {
 	// Prev: the same *connect.Request was used for an earlier call: -1 no earlier call, 0 an earlier call without
 	// deadline, n > 0 an earlier call whose deadline was n seconds away
 	Prev int64 `json:"prev"`
+	// spec_reuse: how the *connect.Request was used before this call
+	Used string `json:"used"`
+}
+
+// specSpy records the Spec a client-side interceptor sees.
+type specSpy struct{ seen *connect.Spec }
+
+func (s specSpy) WrapUnary(next connect.UnaryFunc) connect.UnaryFunc {
+	return func(ctx context.Context, r connect.AnyRequest) (connect.AnyResponse, error) {
+		*s.seen = r.Spec()
+		return next(ctx, r)
+	}
+}
+func (s specSpy) WrapStreamingClient(next connect.StreamingClientFunc) connect.StreamingClientFunc {
+	return next
+}
+func (s specSpy) WrapStreamingHandler(next connect.StreamingHandlerFunc) connect.StreamingHandlerFunc {
+	return next
 }
 
 func init() { families["scalars"] = runScalars }
@@ -271,6 +289,39 @@ func runScalars(raw json.RawMessage, seed int64, rec *Rec) {
 		}
 		slack := (at - asked) / 1e6 // measured bracket in ms between Deadline() and the header being final
 		rec.Add(E("result", "chars", chars, "slack_ms", slack+1, "present", val != "", "count", count))
+	case "spec_reuse":
+		// C12: the Spec seen by the calling client's interceptors and by the handler's user code, for a Request that
+		// is fresh, was already sent through another client, or is a handler's incoming request being forwarded
+		const procA, procB = "/verif.v1.A/First", "/verif.v1.B/Second"
+		var hspec connect.Spec
+		hB := connect.NewUnaryHandler(procB, func(_ context.Context, r *connect.Request[BV]) (*connect.Response[BV], error) {
+			hspec = r.Spec()
+			return connect.NewResponse(&BV{}), nil
+		})
+		var cspec connect.Spec
+		mkB := func() *connect.Client[BV, BV] {
+			return connect.NewClient[BV, BV](&memTransport{h: hB, major: 2}, "http://verif.test"+procB,
+				append(clientProtoOpts(s.Proto), connect.WithInterceptors(specSpy{&cspec}))...)
+		}
+		var err error
+		switch s.Used {
+		case "otherclient":
+			hA := connect.NewUnaryHandler(procA, func(_ context.Context, r *connect.Request[BV]) (*connect.Response[BV], error) {
+				return connect.NewResponse(&BV{}), nil
+			})
+			req := connect.NewRequest(&BV{})
+			_, _ = connect.NewClient[BV, BV](&memTransport{h: hA, major: 2}, "http://verif.test"+procA, clientProtoOpts(s.Proto)...).CallUnary(context.Background(), req)
+			_, err = mkB().CallUnary(context.Background(), req)
+		case "forwarded":
+			hA := connect.NewUnaryHandler(procA, func(ctx context.Context, r *connect.Request[BV]) (*connect.Response[BV], error) {
+				return mkB().CallUnary(ctx, r)
+			})
+			_, err = connect.NewClient[BV, BV](&memTransport{h: hA, major: 2}, "http://verif.test"+procA, clientProtoOpts(s.Proto)...).CallUnary(context.Background(), connect.NewRequest(&BV{}))
+		default:
+			_, err = mkB().CallUnary(context.Background(), connect.NewRequest(&BV{}))
+		}
+		rec.Add(E("result", "ok", err == nil, "cproc", cspec.Procedure, "cisclient", cspec.IsClient, "cstype", int(cspec.StreamType),
+			"hproc", hspec.Procedure, "hisclient", hspec.IsClient, "hstype", int(hspec.StreamType)))
 	default:
 		panic("unknown scalar op " + s.Op)
 	}
